@@ -267,6 +267,12 @@ func dischargeOne(o *Obligation, dir string, timeoutS int) {
 	}
 	var details []string
 	for i, s := range solvers {
+		if o.Cover && i > 0 {
+			break // reachability covers: one solver, short budget (they only guard against vacuity)
+		}
+		if o.Cover && timeoutS > 5 {
+			timeoutS = 5
+		}
 		res, dt, out := runSolver(s, file, timeoutS)
 		o.Seconds += dt
 		details = append(details, fmt.Sprintf("%s:%s(%.2fs)", s.name, res, dt))
@@ -299,6 +305,10 @@ func dischargeOne(o *Obligation, dir string, timeoutS int) {
 		_ = i
 	}
 	o.Status = "unknown"
+	if o.Cover {
+		// vacuity guard: what matters is that the path condition is not refuted
+		o.Status = "cover-inconclusive"
+	}
 	o.Detail = strings.Join(details, " ")
 }
 
